@@ -696,3 +696,20 @@ def rule_totality(ctx, rep):
                       why="the analysis fails with an internal error on a comparison a valid program can contain")
     rep.count("totality rows", n)
     rep.require(n >= 1000, f"only {n} totality rows")
+
+
+def rule_universe_fresh(ctx, rep):
+    rule = "T-FRESH"
+    rep.rule(rule, "_universal_set / _null_set of every analysis return a fresh object on every call, equal in value")
+    an = _find_analyses(ctx)
+    keys = {"int_fields": ["GroupSize", "GroupIndex"], "fee_field": ["Fee"], "addr_fields": ["RekeyTo"], "txn_types": ["TransactionType"]}
+    for modname, cls in an.items():
+        me = Obj(cls)
+        where = _analysis_where(ctx, cls.mod.name, cls.name, "_universal_set")
+        for key in keys[modname]:
+            for meth in ("_universal_set", "_null_set"):
+                a, b = _call(ctx, me, meth, key), _call(ctx, me, meth, key)
+                same_value = (a == b) if not isinstance(a, Obj) else (_fee_view(ctx, a) == _fee_view(ctx, b))
+                rep.check(a is not b and same_value and not (isinstance(a, tuple) and a and a[0] == "RAISES"), rule, f"{cls.name}.{meth}({key})", where,
+                          "same object returned twice" if a is b else repr(a)[:80], "fresh, equal objects",
+                          why="a shared object handed out as 'the universal set' is modified by whoever narrows it")
